@@ -86,8 +86,8 @@ def attribute(
     return {"step": -1, "pass": "unattributed", "iteration": -1, "before": "", "after": "", "how": ""}
 
 
-def evaluate(case: Case, spec: SemSpec, tier: str = "quick", opt_timeout: float = 30.0) -> Outcome:
-    """run one case through ngo and the oracle"""
+def evaluate(case: Case, spec: SemSpec, tier: str = "quick", opt_timeout: float = 30.0, prg_hook: Optional[object] = None) -> Outcome:
+    """run one case through ngo and the oracle; prg_hook (optional) transforms the parsed program handed to optimize"""
     out = Outcome()
     limit = oracle.LIMITS[tier]
     prg = oracle.try_parse(case.src)
@@ -108,7 +108,10 @@ def evaluate(case: Case, spec: SemSpec, tier: str = "quick", opt_timeout: float 
         out.status, out.reason = "discard", "autodetect_crash"
         return out
     in_sigs, out_sigs = sigs_of(in_preds), sigs_of(out_preds)
-    opt = run_optimize(oracle.parse(case.src), in_preds, out_preds, case.traits, opt_timeout)
+    arg = oracle.parse(case.src)
+    if prg_hook is not None:
+        arg = prg_hook(arg)  # type: ignore
+    opt = run_optimize(arg, in_preds, out_preds, case.traits, opt_timeout)
     out.opt = opt
     if opt.status != "ok":
         out.status = "discard"
